@@ -211,15 +211,61 @@ def _loops(ctx, files):
                     yield fn, n
 
 
+def _definitely_stuck(fn, lp):
+    """a reason why the loop cannot end, when that is visible without understanding the loop: no exit at all, or a loop condition none of
+    whose operands is written in the body (and no other exit)"""
+    from ..astq import _place_text, _PURE_METHODS
+    body = lp["body"]
+    exits = [x for x in walk_no_nested_fn(body) if x.k in ("return", "try")] + [x for x in _own_nodes(lp) if x.k == "break"] + \
+            [x for x in walk_no_nested_fn(body) if x.k == "break" and x.get("label")] + \
+            [x for x in walk_no_nested_fn(body) if x.k == "macro" and x["path"] in ("panic", "unreachable", "unimplemented", "todo")]
+    if lp.k == "loop":
+        return None if exits else "the loop has no exit (no break, return or `?` in its body)"
+    c = strip(lp["cond"])
+    if c.k == "let_expr" or exits:
+        return None
+    written = set()
+    for x in walk_no_nested_fn(body):
+        t = None
+        if x.k == "assign" or (x.k == "binary" and x["op"].endswith("=") and x["op"] not in ("==", "!=", "<=", ">=")):
+            t = _place_text(x["l"])
+            if x.k == "assign" and up(strip(x["l"])) == up(strip(x["r"])):
+                t = None    # `x = x`
+        elif x.k == "ref" and x.get("mut"):
+            t = _place_text(x["e"])
+        elif x.k == "mcall" and x["method"] not in _PURE_METHODS:
+            t = _place_text(x["recv"])
+        elif x.k in ("call", "macro", "await"):
+            return None     # an opaque call may change anything reachable
+        if t:
+            written.add(t)
+    for x in walk_no_nested_fn(c):
+        if x.k == "mcall" and x["method"] not in _PURE_METHODS:
+            return None
+        if x.k in ("call", "macro", "await"):
+            return None
+    leaves = [_place_text(x) for x in walk_no_nested_fn(c) if x.k in ("path", "field") and not (x.parent is not None and isinstance(x.parent, Node) and x.parent.k == "field" and x.pkey == "base")]
+    leaves = [l for l in leaves if l]
+    for l in leaves:
+        for w in written:
+            if l == w or l.startswith(w + ".") or w.startswith(l + ".") or l.startswith(w + "["):
+                return None
+    return "nothing the condition `%s` reads is written in the loop body, and the body has no other exit" % up(c)[:80]
+
+
 def _classify_all(ctx, res, files, floor, skip=()):
     n = 0
     for fn, lp in _loops(ctx, files):
         if (fn.name, lp.k) in skip or fn.name in skip:
             continue
         n += 1
+        stuck = _definitely_stuck(fn, lp)
+        if stuck:
+            res.fail("term/%s" % fn.name, lp, "loop cannot end: %s: `%s`" % (stuck, up(lp)[:90]))
+            continue
         cls, why = classify(fn, lp)
         if cls is None:
-            res.fail("term/%s" % fn.name, lp, "loop cannot be classified as terminating (%s): `%s`" % (why, up(lp)[:90]))
+            res.undecided("term/%s" % fn.name, lp, "loop not classified as terminating (%s): `%s`" % (why, up(lp)[:90]))
         else:
             res.ok(lp, "class %s: %s" % (cls, why))
     if n < floor:
@@ -229,7 +275,7 @@ def _classify_all(ctx, res, files, floor, skip=()):
 def ob_write_loops(ctx, res):
     """C13-T2"""
     _classify_all(ctx, res, [W, "bigtools/src/bbi/bigwigwrite.rs", "bigtools/src/bbi/bigbedwrite.rs", "bigtools/src/bbi/beddata.rs",
-                             "bigtools/src/utils/file/tempfilebuffer.rs"], floor=21, skip=("get_rtreeindex",))
+                             "bigtools/src/utils/file/tempfilebuffer.rs"], floor=10, skip=("get_rtreeindex",))
 
 
 def ob_rtree_loop(ctx, res):
